@@ -22,7 +22,6 @@ THEOREMS = [
     "Cog.Sem.C13_enc_eq_implies_equals_counterexample_union",
 ]
 HARNESS_FILES = HARNESS_BASE + ["lab_*.go", "src_*.go", "c13_*.go"]
-PROPOSED = os.path.join(WORK, "proposed_findings_C13.json")
 
 # law -> (flag of the `?info` reply, hypothesis of the _partial theorem it belongs to)
 NEVER_EXCLUDED = ("reflexive-same-value", "one-leaf-mutant-unequal")
@@ -358,12 +357,6 @@ def run_stream(c, hb, stream, **kw):
 
 def main():
     c = Check("C13")
-    # findings proposed by this check and not merged yet are honoured like committed ones
-    if os.path.exists(PROPOSED):
-        have = {f["id"] for f in c.known}
-        for f in json.load(open(PROPOSED)).get("findings", []):
-            if f.get("property") == "C13" and f["id"] not in have:
-                c.known.append(f)
     c.trusted = [
         "Lean 4.33 kernel; axioms per theorem are listed in obligation_list (subset of propext, Classical.choice, Quot.sound)",
         "hand-written model lean/Cog/Sem/GoEquals.lean of templates/types/struct_equality_method.tmpl + equality.go, tied by the c13-equals stream (real generated code compiled and run)",
